@@ -326,7 +326,7 @@ def handle (op : String) (args res : List String) : Option Verdict :=
     | _, _ => .bad "parse"
   | "gsum" => some <|
     match args, parseGs res with
-    | [tag, us, vs], some [s, t] =>
+    | [tag, us, vs], some [s, t, fs, ft] =>
       match Fmt.ofTag tag, parseG us, parseG vs with
       | some f, some u, some v =>
         if !(u.isFinite && v.isFinite) then .skip "nonfinite"
@@ -338,6 +338,7 @@ def handle (op : String) (args res : List String) : Option Verdict :=
             -- TwoSum contract at the precision of the instantiation: s = RN(u+v) and s + t = u + v exactly
             let c1 := sameVal r s
             let c2 := s.isFinite && t.isFinite && Dy.eq (Dy.add s.toDy t.toDy) exact
+                        && sameVal fs s && ft.isFinite && Dy.eq (Dy.add fs.toDy ft.toDy) exact     -- fastsum (|u| ≥ |v|): same contract
             -- near overflow of the intermediate differences the contract is not promised
             let big := Dy.le (two (f.emax - 2)) (Dy.abs exact) || Dy.le (two (f.emax - 2)) (Dy.abs u.toDy) || Dy.le (two (f.emax - 2)) (Dy.abs v.toDy)
             if c1 && (c2 || big) then .ok
